@@ -22,7 +22,7 @@ CLAUSES = {
     "C09": ["C09_spawn", "C09_reap", "C09_live", "C09_startstop", "C09_status"],
     "C10": ["C10_wedge", "C10_refuse", "C10_accept", "C10_held"],
     "C13": ["C13_wid"],
-    "C14": ["C14_startgate", "C14_siggate", "C14_events", "C14_killsent"],
+    "C14": ["C14_startgate", "C14_siggate", "C14_events", "C14_killsent", "C14_own"],
     "C15": ["C15_dir", "C15_views", "C15_addrm", "C15_reach"],
     "C18": ["C18_confine", "C18_exact", "C18_killsig"],
     "C19": ["C19_order", "C19_pace", "C19_auto"],
@@ -120,7 +120,7 @@ PROPS = {
     "C10": {"mc_quick": ["c10"], "mc_thorough": ["c10", "c02od", "c05", "deep"],
             "profiles": {"default": (80, 2000), "excl": (120, 3000), "ondemand": (40, 1000), "reloadarb": (40, 1000)}, "conf": {"conf_full": (40, 600), "conf_sig": (30, 400)}},
     "C14": {"mc_quick": ["c14"], "mc_thorough": ["c14", "c04", "deep"],
-            "profiles": {"hooks": (200, 5000)}, "conf": {"conf_full": (60, 800)}},
+            "profiles": {"hooks": (200, 5000), "hooksfile": (40, 1000)}, "conf": {"conf_full": (60, 800)}},
     "C11": {"mc_quick": ["c10", "c15"], "mc_thorough": ["c10", "c15t", "c05", "deep"],
             "profiles": {"refusal": (250, 6000)}, "conf": {"conf_dir": (40, 500)}},
     "C13": {"mc_quick": ["c01"], "mc_thorough": ["c01", "c01_deep", "deep"],
